@@ -44,6 +44,7 @@ from rig.netlist import Net
 from rig.place_and_route import Machine, Cores, SDRAM, SRAM
 from rig.place_and_route import constraints as cons_mod
 from rig.place_and_route.wrapper import place_and_route_wrapper
+from rig.place_and_route.wrapper import wrapper as deprecated_wrapper
 from rig.place_and_route.allocate import greedy
 from rig.place_and_route.place import sequential, breadth_first, hilbert, rcm, rand, sa
 from rig.place_and_route.place.sa.python_kernel import PythonKernel
@@ -715,6 +716,7 @@ FUNCS = {
     "minimise_table": minimise_mod.minimise_table,
     "minimise_tables": minimise_mod.minimise_tables,
     "place_and_route_wrapper": place_and_route_wrapper,
+    "wrapper": deprecated_wrapper,
     "Machine": Machine,
     "Machine.copy": Machine.copy,
     "BitField session": session_bitfield,
@@ -769,14 +771,58 @@ def check_interpreter():
     assert os.environ.get("PYTHONHASHSEED") == "0", "children must run with PYTHONHASHSEED=0"
 
 
+def _ed(slotname, path, op, **kw):
+    return dict(edit=dict(slot=slotname, path=path, op=op, **kw))
+
+
+def apply_edit(env, e, memo):
+    """child side: the caller writes on its own object"""
+    if e["slot"] not in env:
+        return              # a result the caller meant to extend was never returned (the call raised)
+    o = env[e["slot"]]
+    for kind, k in e["path"]:
+        if kind == "attr":
+            o = getattr(o, k)
+        elif kind == "index":
+            o = o[k]
+        else:
+            o = o[dec(k, memo)]
+    v = dec(e["value"]["lit"], memo) if "value" in e else None
+    op = e["op"]
+    if op == "update":
+        o.update(v)
+    elif op == "difference_update":
+        o.difference_update(v)
+    elif op == "append":
+        o.append(v)
+    elif op == "extend":
+        o.extend(v)
+    elif op == "pop":
+        o.pop()
+    elif op == "setitem":
+        o[dec(e["key"]["lit"], memo)] = v
+    elif op == "delitem":
+        del o[dec(e["key"]["lit"], memo)]
+    elif op == "setattr":
+        setattr(o, e["name"], v)
+    else:
+        raise ValueError(op)
+
+
+
 def child_history(job):
-    """slots: [[name, enc]], encoded together.  steps: see make_step.  One event per executed step."""
+    """slots: [[name, enc]], encoded together.  steps: see make_step.  One event per executed step; a step
+    {"edit": ...} is the caller writing on one of its own objects between two calls (no event)."""
     memo = {}
     env = {}
     for name, e in job["slots"]:
         env[name] = dec(e, memo)
     events = []
     for step in job["steps"]:
+        if "edit" in step:
+            apply_edit(env, step["edit"], memo)      # on given objects only: they are always there
+            continue
+
         def resolve(a):
             if "lit" in a:
                 return dec(a["lit"], memo)
@@ -887,6 +933,7 @@ class Builder(object):
         self.rng, self.label = rng, label
         self.memo = {}
         self.slots = []
+        self.objs = {}          # the given objects themselves (harness side: to plan the caller's edits)
         self.steps = []
         self.safe = []          # generators of steps that need nothing an earlier call has to produce
         self.any = []           # generators of steps that may need results of earlier calls
@@ -894,6 +941,7 @@ class Builder(object):
 
     def give(self, name, o):
         self.slots.append([name, enc(o, self.memo)])
+        self.objs[name] = o
         return name
 
     def lit(self, o):
@@ -945,11 +993,11 @@ def add_placers(b, p, vr, machine, into_safe=True, sa_ok=True):
     return gens
 
 
-def add_placement_problem(b, idx, chk):
+def add_placement_problem(b, idx, chk, problem=None):
     """a problem in the style of C02: constraints of every kind, no placement given"""
     from . import c02
     p = "q%d" % idx
-    vr, nets, m, cons = c02.gen_problem(b.rng, b.rng.random() < 0.4, chk)
+    vr, nets, m, cons = problem if problem is not None else c02.gen_problem(b.rng, b.rng.random() < 0.4, chk)
     b.give(p + ".vr", vr)
     b.give(p + ".nets", nets)
     b.give(p + ".machine", m)
@@ -989,15 +1037,17 @@ def system_info_of(machine, rng):
     return SystemInfo(machine.width, machine.height, chips)
 
 
-def add_routing_problem(b, idx, chk):
+def add_routing_problem(b, idx, chk, machine=None, nnets=None):
     """a problem in the style of C03: machine with faults, nets, a given (random) placement and allocation"""
     from .. import gen
     from . import c03
     rng = b.rng
     p = "p%d" % idx
-    m = gen.random_machine(rng, maxw=chk.pick(6, 9), maxh=chk.pick(6, 9), p_dead_chip=rng.choice((0, 0.05, 0.1)),
-                           resources={Cores: 18, SDRAM: 128, SRAM: 32})
-    vertices, placements, allocations, endpoints, nets = c03.random_problem(rng, m, rng.randint(1, 4))
+    m = machine if machine is not None else gen.random_machine(
+        rng, maxw=chk.pick(6, 9), maxh=chk.pick(6, 9), p_dead_chip=rng.choice((0, 0.05, 0.1)),
+        resources={Cores: 18, SDRAM: 128, SRAM: 32})
+    vertices, placements, allocations, endpoints, nets = c03.random_problem(
+        rng, m, nnets if nnets is not None else rng.randint(1, 4))
     vr = collections.OrderedDict()
     for v in vertices:
         sl = allocations.get(v, {}).get(Cores)
@@ -1073,6 +1123,8 @@ def add_table_problem(b, idx, chk):
     t = "t%d" % idx
     w = rng.choice((3, 4, 5, 8))
     table = c04.random_table(rng, w, rng.randint(0, 12), ordered_overlapping=rng.random() < 0.3)
+    if isinstance(table, tuple):        # the C04 generator may also return the bit layout it drew: (table, layout)
+        table = table[0]
     b.give(t + ".table", table)
     b.give(t + ".aliases", {})           # a caller-owned alias dictionary, re-used by later calls
     n = len(table)
@@ -1364,6 +1416,344 @@ def make_history(rng, idx, chk):
     return b
 
 
+# ---------------------------------------------------------------------------------- histories added by the audit
+# (their own random stream: the histories above are generated exactly as before)
+#
+# 1. "edited": the CALLER changes one of its own argument objects in place between two calls of the same function
+#    (a dead link / chip, the wrap-around links, a resource quantity of the machine; a sink, a weight, a further net
+#    of the netlist; a vertex's resources; a constraint taken off the list; a vertex moved in the placement; an entry
+#    taken off a table) and, in most histories, changes it back and calls a third time.  Sibling problems are two
+#    objects; this is ONE object with two values - what a library that keeps a reference to (or a note about the
+#    identity of) something it was given gets wrong.  The call after the edit is a probe (the fresh interpreter is
+#    given the edited value); the call after the undo has the key of the first call (clause Functional).
+# 2. "shapes": legal argument shapes and callers' containers the histories above never pass: `methods` as a caller-
+#    owned LIST used by several calls, `target_lengths` as a dictionary naming every chip (int and None values),
+#    ordered covering continued from caller-owned alias dictionaries whose sets are merged again (tables that merge
+#    well: few routes, many don't-cares), one table object under two chips.
+# 3. "wrappers": rig.place_and_route.wrapper.wrapper (never called above) and place_and_route_wrapper (in the
+#    pool above but drawn less than once per run) with every optional argument defaulted and with caller-owned
+#    constraint lists / keyword dictionaries used by several calls.
+def machine_edits(b, p, m, busy=()):
+    """[(kind, edit steps, undo steps)] on the Machine in slot p.machine; chips in `busy` stay alive"""
+    from .. import gen
+    rng, s = b.rng, p + ".machine"
+    out = []
+    seam = set(gen.mesh_dead_links(m.width, m.height))
+    live_seam = seam - set(m.dead_links)
+    dl = [["attr", "dead_links"]]
+    if m.width > 1 or m.height > 1:
+        if live_seam:       # (part of) a torus: the wrap-around links are cut ...
+            out.append(("machine.wrap", [_ed(s, dl, "update", value=b.lit(live_seam))],
+                        [_ed(s, dl, "difference_update", value=b.lit(live_seam))]))
+        else:               # ... a mesh: they are connected
+            out.append(("machine.wrap", [_ed(s, dl, "difference_update", value=b.lit(seam))],
+                        [_ed(s, dl, "update", value=b.lit(seam))]))
+    live = [(x, y, l) for (x, y) in m for l in Links if (x, y, l) in m]
+    if live:
+        x, y, l = rng.choice(live)
+        dx, dy = l.to_vector()
+        both = {(x, y, l), ((x + dx) % m.width, (y + dy) % m.height, l.opposite)} - set(m.dead_links)
+        out.append(("machine.link", [_ed(s, dl, "update", value=b.lit(both))],
+                    [_ed(s, dl, "difference_update", value=b.lit(both))]))
+    free = [xy for xy in m if xy not in busy]
+    if free and len(list(m)) > 1:
+        xy = rng.choice(free)
+        out.append(("machine.chip", [_ed(s, [["attr", "dead_chips"]], "update", value=b.lit({xy}))],
+                    [_ed(s, [["attr", "dead_chips"]], "difference_update", value=b.lit({xy}))]))
+    r = rng.choice(sorted(m.chip_resources, key=str))
+    old = m.chip_resources[r]
+    out.append(("machine.resource", [_ed(s, [["attr", "chip_resources"]], "setitem", key=b.lit(r), value=b.lit(old + 1))],
+                [_ed(s, [["attr", "chip_resources"]], "setitem", key=b.lit(r), value=b.lit(old))]))
+    xy = rng.choice(list(m))
+    less = dict(m[xy])
+    less[r] = max(0, less[r] - 1)
+    exc = [["attr", "chip_resource_exceptions"]]
+    if xy in m.chip_resource_exceptions:
+        undo = [_ed(s, exc, "setitem", key=b.lit(xy), value=b.lit(dict(m.chip_resource_exceptions[xy])))]
+    else:
+        undo = [_ed(s, exc, "delitem", key=b.lit(xy))]
+    out.append(("machine.exception", [_ed(s, exc, "setitem", key=b.lit(xy), value=b.lit(less))], undo))
+    return out
+
+
+def netlist_edits(b, p, nets, vertices, new_net_ok=True):
+    rng, s = b.rng, p + ".nets"
+    out = []
+    vertices = list(vertices)
+    if nets and vertices:
+        picks = [(rng.randrange(len(nets)), rng.choice(vertices)) for _ in range(rng.randint(2, 4))]
+        out.append(("nets.sink", [_ed(s, [["index", i], ["attr", "sinks"]], "append", value=b.lit(v)) for i, v in picks],
+                    [_ed(s, [["index", i], ["attr", "sinks"]], "pop") for i, v in reversed(picks)]))
+        i = rng.randrange(len(nets))
+        w = nets[i].weight
+        out.append(("nets.weight", [_ed(s, [["index", i]], "setattr", name="weight", value=b.lit(w + 3))],
+                    [_ed(s, [["index", i]], "setattr", name="weight", value=b.lit(w))]))
+    if new_net_ok and len(vertices) >= 2:
+        new = Net(rng.choice(vertices), rng.sample(vertices, min(len(vertices), rng.randint(1, 3))), rng.choice((1, 2.5)))
+        out.append(("nets.net", [_ed(s, [], "append", value=b.lit(new))], [_ed(s, [], "pop")]))
+    return out
+
+
+def resource_edits(b, p, vr):
+    rng, s = b.rng, p + ".vr"
+    if not vr:
+        return []
+    v = rng.choice(sorted(vr, key=str))
+    if Cores in vr[v]:
+        undo = [_ed(s, [["key", b.lit(v)["lit"]]], "setitem", key=b.lit(Cores), value=b.lit(vr[v][Cores]))]
+    else:
+        undo = [_ed(s, [["key", b.lit(v)["lit"]]], "delitem", key=b.lit(Cores))]
+    return [("vertices_resources", [_ed(s, [["key", b.lit(v)["lit"]]], "setitem", key=b.lit(Cores),
+                                        value=b.lit(vr[v].get(Cores, 0) + 1))], undo)]
+
+
+def placement_edits(b, slotname, placements, m):
+    rng = b.rng
+    if not placements:
+        return []
+    v = rng.choice(sorted(placements, key=str))
+    other = [xy for xy in m if xy != placements[v]]
+    if not other:
+        return []
+    return [("placements", [_ed(slotname, [], "setitem", key=b.lit(v), value=b.lit(rng.choice(other)))],
+             [_ed(slotname, [], "setitem", key=b.lit(v), value=b.lit(placements[v]))])]
+
+
+def list_tail_edits(b, kind, slotname, lst):
+    """take the last element off a caller's list (a sub-list of a consistent constraint list is consistent, a
+    sub-table of an orthogonal or generality-ordered table is one); undo: put an equal element back"""
+    if not lst:
+        return []
+    return [(kind, [_ed(slotname, [], "pop")], [_ed(slotname, [], "append", value=b.lit(lst[-1]))])]
+
+
+def _named(b, gens, prefixes):
+    """the step generators of a pool whose function name starts with one of the prefixes"""
+    return [g for g in gens if g(1)["fn"].startswith(prefixes)]
+
+
+def make_edited_history(rng, idx, chk):
+    from .. import gen
+    from . import c02
+    b = Builder(rng, "h%d" % idx)
+    b.theme = "edited"
+    kind = ("route", "place", "route", "place", "table", "route", "place")[idx % 7]
+    plans = []          # (edits, step generators that read the edited object)
+    prefer = {"route": ("machine.wrap", ("route",)), "place": ("nets.", ("place.breadth_first", "place.hilbert", "place.rcm", "place.sa"))}.get(kind)
+    if kind == "route":
+        # a machine on which the edits matter: wide enough for the wrap-around links to shorten paths, few faults
+        # (so that cutting a link or the seam seldom disconnects it), more nets than the histories above
+        w, h = rng.randint(3, 7), rng.randint(3, 7)
+        dead = set(gen.mesh_dead_links(w, h)) if rng.random() < 0.5 else set()
+        if rng.random() < 0.4:
+            x, y, l = rng.randrange(w), rng.randrange(h), rng.choice(list(Links))
+            dx, dy = l.to_vector()
+            dead |= {(x, y, l), ((x + dx) % w, (y + dy) % h, l.opposite)}
+        m0 = Machine(w, h, {Cores: 18, SDRAM: 128, SRAM: 32}, dead_chips={(rng.randrange(w), rng.randrange(h))}
+                     if rng.random() < 0.3 else set(), dead_links=dead)
+        p = add_routing_problem(b, 0, chk, machine=m0, nnets=rng.randint(4, 8))
+        vr, nets, m = b.objs[p + ".vr"], b.objs[p + ".nets"], b.objs[p + ".machine"]
+        pl = b.objs[p + ".given_placements"]
+        routers = _named(b, b.safe, ("route",))
+        placers = _named(b, b.safe, ("place.",))
+        allocs = _named(b, b.safe, ("allocate",))
+        plans.append((machine_edits(b, p, m, busy=set(pl.values())), routers + routers + placers))
+        plans.append((netlist_edits(b, p, nets, vr), routers + placers))
+        plans.append((placement_edits(b, p + ".given_placements", pl, m), routers + allocs))
+        plans.append((resource_edits(b, p, vr), placers + allocs))
+    elif kind == "place":
+        for _ in range(20):
+            problem = c02.gen_problem(rng, True, chk)
+            if len(problem[0]) >= 4 and len(list(problem[2])) >= 4:
+                break
+        p = add_placement_problem(b, 0, chk, problem=problem)
+        vr, nets, m, cons = (b.objs[p + k] for k in (".vr", ".nets", ".machine", ".cons"))
+        placers = _named(b, b.safe, ("place",))
+        plans.append((machine_edits(b, p, m), placers))
+        plans.append((netlist_edits(b, p, nets, vr), placers))
+        plans.append((resource_edits(b, p, vr), placers))
+        plans.append((list_tail_edits(b, "constraints", p + ".cons", cons), placers))
+    else:
+        t = add_table_problem(b, 0, chk)
+        plans.append((list_tail_edits(b, "table", t + ".table", b.objs[t + ".table"]), list(b.safe)))
+    plans = [(e, g) for e, g in plans if e and g]
+    seed = rng.randrange(1, 1000)
+    steps, kinds = [], []
+    for rnd in range(2 if plans else 0):
+        edits, gens = rng.choice(plans)
+        ekind, do, undo = rng.choice(edits)
+        every = []
+        if rnd == 0 and prefer and rng.random() < 0.6:
+            # the pairs that matter most get a fixed share: the wrap-around links with the router (and the placers
+            # that ask the machine about them), the netlist with the placers that walk it
+            for edits2, gens2 in plans:
+                hit = [e for e in edits2 if e[0].startswith(prefer[0])]
+                if hit:
+                    (ekind, do, undo), gens = rng.choice(hit), (_named(b, gens2, prefer[1]) or gens2)
+                    if kind == "place":     # one placer of every family that walks the netlist
+                        every = [rng.choice(_named(b, gens2, (f,))) for f in prefer[1] if _named(b, gens2, (f,))]
+        chosen = every or [rng.choice(gens) for _ in range(rng.randint(1, 2))]
+        rounds = [[], do, undo] if rng.random() < 0.7 else [[], do]
+        for k, edit_steps in enumerate(rounds):
+            steps += edit_steps
+            for g in chosen:
+                st = g(seed)
+                st["safe"] = True
+                st["scribble"] = rng.random() < 0.3
+                st["probe"] = (k == 1) or rng.random() < (0.4 if not every else 0.15)
+                st["label"] = st["label"] + ("" if k == 0 else " after the caller's edit (%s)" % ekind if k == 1
+                                             else " after the caller's undo")
+                steps.append(st)
+        kinds.append(ekind)
+        if undo is not rounds[-1]:
+            break               # the object stays edited: nothing generated from its first value may follow
+    if not steps:
+        return make_shapes_history(rng, idx, chk)
+    steps[-1]["probe"] = True
+    steps[-1]["scribble"] = False
+    b.steps = steps
+    b.edit_kinds = kinds
+    return b
+
+
+def mergeable_table(rng, n, nroutes=None):
+    """an orthogonal table on which ordered covering merges again and again: few routes, keys that differ in few bits"""
+    w = rng.choice((4, 5, 6))
+    keys = rng.sample(range(1 << w), min(n, 1 << w))
+    routes = [{Routes.east}, {Routes.north}][:nroutes or rng.choice((1, 2, 2))]
+    sources = [{None}, {Routes.west}, {Routes.south}, {Routes.west, Routes.south}, {Routes.west, None}]
+    mask = (1 << w) - 1
+    return [RoutingTableEntry(set(rng.choice(routes)), k, mask, set(rng.choice(sources))) for k in keys]
+
+
+def make_shapes_history(rng, idx, chk):
+    b = Builder(rng, "h%d" % idx)
+    b.theme = "shapes"
+    t = "t0"
+    table = mergeable_table(rng, rng.randint(4, 14))
+    n = len(table)
+    b.give(t + ".table", table)
+    b.give(t + ".tables", collections.OrderedDict([((0, 0), table), ((1, 0), table[::-1]), ((1, 1), table)]))
+    b.give(t + ".methods", [rdr_mod.minimise, oc_mod.minimise])
+    b.give(t + ".method", [oc_mod.minimise])
+    b.give(t + ".lengths", {(0, 0): rng.choice((None, n, max(1, n // 2))), (1, 0): None, (1, 1): rng.choice((None, n))})
+    b.give(t + ".aliases", {})
+    seed = rng.randrange(1, 1000)
+    ms = lambda: slot(rng.choice((t + ".methods", t + ".methods", t + ".method")))
+    gens = [
+        lambda: make_step("minimise_table", [("table", slot(t + ".table")), ("target_length", b.lit(rng.choice((None, n, 1))))],
+                          [("methods", ms())], seed=seed),
+        lambda: make_step("minimise_tables", [("routing_tables", slot(t + ".tables")), ("target_lengths", slot(t + ".lengths"))],
+                          [("methods", ms())], seed=seed),
+        lambda: make_step("minimise_tables", [("routing_tables", slot(t + ".tables")), ("target_lengths", slot(t + ".lengths"))],
+                          seed=seed),
+        lambda: make_step("minimise_tables", [("routing_tables", slot(t + ".tables")), ("target_lengths", b.lit(None)),
+                                              ("methods", ms())], seed=seed),
+    ]
+    steps = [rng.choice(gens)() for _ in range(rng.randint(2, 3))]
+    # ordered covering, one merge at a time, every call continuing from the caller's copy of what the last returned
+    store = [(t + ".cur", 0), (t + ".cur_aliases", 1)]
+    steps.append(make_step("ordered_covering.ordered_covering",
+                           [("routing_table", slot(t + ".table")), ("target_length", b.lit(max(0, n - 1))),
+                            ("aliases", slot(t + ".aliases"))], [("no_raise", b.lit(True))], seed=seed, store=store,
+                           scribble=rng.random() < 0.5))
+    for k in range(2, rng.randint(4, 7)):
+        steps.append(make_step("ordered_covering.ordered_covering",
+                               [("routing_table", slot(t + ".cur")), ("target_length", b.lit(max(0, n - k))),
+                                ("aliases", slot(t + ".cur_aliases"))], [("no_raise", b.lit(True))], seed=seed,
+                               store=store, scribble=rng.random() < 0.5))
+    steps.append(make_step("ordered_covering.ordered_covering",
+                           [("routing_table", slot(t + ".cur")), ("target_length", b.lit(None)),
+                            ("aliases", slot(t + ".cur_aliases"))], seed=seed))
+    if n >= 0:
+        # what the aliases parameter is documented for: a table minimised earlier is extended by the caller and
+        # minimised again, the earlier merge products (with their alias sets, now the caller's) merging with the
+        # new entries
+        later = mergeable_table(rng, rng.randint(5, 10), nroutes=1)
+        half = rng.randint(len(later) // 2 + 1, len(later) - 1)     # more entries merged earlier than added now
+        b.give(t + ".head", later[:half])
+        steps.append(make_step("ordered_covering.ordered_covering",
+                               [("routing_table", slot(t + ".head")), ("target_length", b.lit(None)),
+                                ("aliases", slot(t + ".aliases"))], seed=seed,
+                               store=[(t + ".upd", 0), (t + ".upd_aliases", 1)], scribble=True))
+        steps.append(_ed(t + ".upd", [], "extend", value=b.lit(later[half:])))
+        for tgt in (rng.choice((None, max(1, n // 3))), None):
+            steps.append(make_step("ordered_covering.ordered_covering",
+                                   [("routing_table", slot(t + ".upd")), ("target_length", b.lit(tgt)),
+                                    ("aliases", slot(t + ".upd_aliases"))], [("no_raise", b.lit(True))], seed=seed,
+                                   label="ordered_covering.ordered_covering of an extended table with the aliases of the first run"))
+    steps.append(rng.choice(gens)())
+    for st in steps:
+        if "edit" not in st:
+            st["safe"] = True
+            st["probe"] = rng.random() < 0.3
+    steps[-1]["probe"] = True
+    steps[-1]["scribble"] = False
+    b.steps = steps
+    return b
+
+
+def make_wrapper_history(rng, idx, chk):
+    from .. import gen
+    b = Builder(rng, "h%d" % idx)
+    b.theme = "wrappers"
+    p = "w0"
+    m = gen.random_machine(rng, maxw=4, maxh=4, p_dead_chip=rng.choice((0, 0.1)), fault_rate=rng.choice((0, 0, 0.05)),
+                           resources={Cores: 18, SDRAM: 1 << 20, SRAM: 1 << 14}, connected=True)
+    nv = rng.randint(2, 8)
+    vs = ["v%d" % i for i in range(nv)]
+    vr = {v: {Cores: rng.randint(1, 3), SDRAM: 4 * rng.randint(0, 8)} for v in vs}
+    nets = [Net(rng.choice(vs), rng.sample(vs, rng.randint(1, min(3, nv))), rng.choice((1, 2.5))) for _ in range(rng.randint(1, 4))]
+    cons = [cons_mod.SameChipConstraint(vs[:2])] if rng.random() < 0.5 else []
+    if nv > 2 and rng.random() < 0.5:
+        cons.append(cons_mod.LocationConstraint(vs[-1], rng.choice(list(m))))
+    b.give(p + ".vr", vr)
+    b.give(p + ".apps", {v: "app%d.aplx" % (i % 2) for i, v in enumerate(vs)})
+    b.give(p + ".nets", nets)
+    b.give(p + ".net_keys", {n: (i << 6, 0xffffffc0) for i, n in enumerate(nets)})
+    b.give(p + ".machine", m)
+    b.give(p + ".system_info", system_info_of(m, rng))
+    b.give(p + ".cons", cons)
+    b.give(p + ".place_kwargs", {"effort": 0.1})
+    b.give(p + ".route_kwargs", {"radius": rng.choice((0, 2, 20))})
+    b.give(p + ".allocate_kwargs", {})
+    seed = rng.randrange(1, 1000)
+    head = [("vertices_resources", slot(p + ".vr")), ("vertices_applications", slot(p + ".apps")),
+            ("nets", slot(p + ".nets")), ("net_keys", slot(p + ".net_keys"))]
+    opts = [("constraints", slot(p + ".cons")), ("place_kwargs", slot(p + ".place_kwargs")),
+            ("route_kwargs", slot(p + ".route_kwargs")), ("allocate_kwargs", slot(p + ".allocate_kwargs"))]
+    fast = [("place_kwargs", slot(p + ".place_kwargs"))]
+    old = head + [("machine", slot(p + ".machine"))]
+    new = head + [("system_info", slot(p + ".system_info"))]
+    gens = [
+        lambda: make_step("wrapper", old, fast, seed=seed),                        # constraints defaulted
+        lambda: make_step("wrapper", old, opts, seed=seed),
+        lambda: make_step("wrapper", old, opts + [("reserve_monitor", b.lit(False))], seed=seed),
+        lambda: make_step("wrapper", old, opts[:1] + [("place", b.lit(hilbert.place))], seed=seed),
+        lambda: make_step("place_and_route_wrapper", new, fast, seed=seed),
+        lambda: make_step("place_and_route_wrapper", new, opts, seed=seed),
+        lambda: make_step("place_and_route_wrapper", new, opts[:1] + [("place", b.lit(hilbert.place))], seed=seed),
+    ]
+    steps = [g() for g in (rng.sample(gens, 3) + [rng.choice(gens[:3])])]
+    steps.append(dict(steps[rng.randrange(3)]))
+    for st in steps:
+        st["safe"] = True
+        st["probe"] = rng.random() < 0.3
+    steps[-1]["probe"] = True
+    b.steps = steps
+    return b
+
+
+def make_audit_histories(chk, first_idx):
+    rng = random.Random(7919 * chk.seed + 17)
+    out = []
+    for maker, n in ((make_edited_history, chk.pick(21, 210)), (make_shapes_history, chk.pick(6, 60)),
+                     (make_wrapper_history, chk.pick(4, 40))):
+        for _ in range(n):
+            out.append(maker(rng, first_idx + len(out), chk))
+    return out
+
+
 # ---------------------------------------------------------------------------------- running and assembling
 def assemble(job, hist_out, fresh_recs):
     """events of the history child + the results of its probes' fresh interpreters -> one trace"""
@@ -1462,6 +1852,7 @@ def run(chk):
     with ThreadPoolExecutor(max_workers=1) as side:
         dj = side.submit(design_jobs, chk)           # TLC explores the design while the children run rig
         builders = [make_history(rng, i, chk) for i in range(chk.pick(150, 2000))]
+        builders += make_audit_histories(chk, len(builders))
         jobs = [b.job() for b in builders]
         traces = run_jobs(jobs)
         dj.result()
@@ -1473,6 +1864,8 @@ def run(chk):
         chk.note_case([(e[1]["fn"], [a[1] for a in e[1]["args"]], e[1]["seed"]) for e in calls],
                       nontrivial=len(calls) >= 3)
         chk.count("histories of theme " + b.theme)
+        for k in getattr(b, "edit_kinds", ()):
+            chk.count("caller's edits in place between two calls: " + k)
         if t["not_probed"]:
             chk.count("probes abandoned: arguments cannot be rebuilt in another interpreter", t["not_probed"])
         for e in calls:
@@ -1503,7 +1896,15 @@ def run(chk):
                 "whose objects are re-used by all calls of the history, results of earlier calls fed to later ones, "
                 "results scribbled over by the caller in between; the last call and a quarter of the others are "
                 "probes repeated as the first call of another fresh interpreter; non-trivial = at least 3 calls; "
-                "distinct = distinct (function, argument digests, seed) sequences")
+                "distinct = distinct (function, argument digests, seed) sequences; plus (own random stream) 21 'edited' "
+                "histories in which the caller changes one of its own argument objects in place between two calls of "
+                "the same function and mostly changes it back before a third (machine: wrap-around links, a link, a "
+                "chip, a resource quantity, a resource exception; netlist: sinks, a weight, a further net; a vertex's "
+                "resources; a constraint or a table entry taken off the list; a vertex moved in the placement), 6 "
+                "'shapes' histories (methods as a caller-owned list, target_lengths as a dictionary over all chips, "
+                "ordered covering of a table the caller extended after an earlier run, with that run's aliases) and 4 "
+                "'wrappers' histories (the deprecated wrapper() and place_and_route_wrapper() with defaulted and with "
+                "caller-owned constraints and keyword dictionaries)")
     chk.assumptions += [
         "digests are the first 48 bits of SHA-1 of a canonical encoding: dictionary order counts for arguments "
         "(placers depend on it) but not for results; set order and the order of a routing tree's children never count; "
